@@ -1363,8 +1363,8 @@ def hs_alphabet(full: bool):
     return ops
 
 
-def hs_random_op(rng):
-    items = HS_ITEMS + ["Accept", "accept-encoding", "x y", "", 'q"t', "é"]
+def hs_random_op(rng, items=None):
+    items = items or HS_ITEMS + ["Accept", "accept-encoding", "x y", "", 'q"t', "é"]
     r = rng.random()
     if r < 0.25:
         return ("add", rng.choice(items))
@@ -1427,8 +1427,8 @@ def hd_alphabet(full: bool):
     return ops
 
 
-def hd_random_op(rng):
-    keys = HD_KEYS + ["B", "Content-Type", "content-type", "X-Foo"]
+def hd_random_op(rng, keys=None):
+    keys = keys or HD_KEYS + ["B", "Content-Type", "content-type", "X-Foo"]
     vals = ["1", 2, "text/plain", "", BAD, "a\rb", -5, "é", Lazy("lazy"), Lazy(BAD), b"by\ntes"]
 
     def k():
@@ -2040,6 +2040,58 @@ def mutable_value_checks(chk, ds, rng, n):
     chk.count("copy / deepcopy / pickle with mutable values (oracle only)", n * len(kinds))
 
 
+# keys that are equal under str.casefold() (or str.upper()) but different under str.lower(), and the other way round: the code
+# compares header names with lower() everywhere (Kelvin sign K and k ARE equal under lower(); sharp s and ss, long s and s, final
+# sigma and sigma, the fi ligature and fi are NOT)
+UNI_KEYS = ["X-Mass", "X-Maß", "x-mass", "X-MASS", "set", "ſet", "SET", "σ", "ς", "Σ", "k", "\u212a", "K", "İ", "i̇", "i", "I", "ı", "ﬁ", "fi"]
+
+
+def unicode_key_checks(chk, ds, rng, n):
+    """Headers / HeaderSet / EnvironHeaders over names outside ASCII: the extracted model folds ASCII only (its claimed domain),
+    so these run against the Python reference (ref_hd / ref_hs: str.lower()) and the read-consistency laws only"""
+    saved, fresh = list(PROBE), FRESH[0]
+    PROBE[:] = UNI_KEYS
+    FRESH[0] = True
+    try:
+        for i in range(n):
+            init = ("p", tuple((rng.choice(UNI_KEYS), rng.choice(["1", "2", "3"])) for _ in range(rng.randint(0, 5))))
+            ops = [hd_random_op(rng, UNI_KEYS) for _ in range(rng.randint(1, 6))]
+            try:
+                run_hd(chk, ds, init, ops, True)
+            except Exception as e:  # noqa: BLE001
+                chk.fail("implementation-raised", f"{type(e).__name__}: {e} escaped from Headers", {"kind": "hd", "init": init, "ops": [list(o) for o in ops]})
+            items = []
+            for x in (rng.choice(UNI_KEYS) for _ in range(rng.randint(0, 4))):
+                if x.lower() not in [y.lower() for y in items]:
+                    items.append(x)
+            hops = [o for o in (hs_random_op(rng, UNI_KEYS) for _ in range(rng.randint(1, 6))) if o[0] != "set"]
+            try:
+                run_hs(chk, ds, items, hops, True)
+            except Exception as e:  # noqa: BLE001
+                chk.fail("implementation-raised", f"{type(e).__name__}: {e} escaped from HeaderSet", {"kind": "hs", "init": items, "ops": [list(o) for o in hops]})
+            chk.case(("unicode-keys", i, repr(init), repr(items)), nontrivial=True)
+        # EnvironHeaders: get / in / [] go through key.upper(), getlist / get_all through k.lower()
+        for i in range(max(1, n // 4)):
+            env = {"HTTP_" + rng.choice(UNI_KEYS).upper().replace("-", "_"): str(j) for j in range(rng.randint(1, 4))}
+            e = ds.EnvironHeaders(env)
+            for k in UNI_KEYS:
+                case = {"kind": "eh-unicode", "env": dict(env), "key": k}
+                try:
+                    row = e.getlist(k)
+                    reads = (k in e, e.get(k), e.get_all(k))
+                except Exception as ex:  # noqa: BLE001
+                    chk.fail("implementation-raised", f"{type(ex).__name__}: {ex} escaped from EnvironHeaders reads", case)
+                    continue
+                if reads != (bool(row), row[0] if row else None, row):
+                    folds_apart = not k.isascii() or not all(x.isascii() for x in env)
+                    chk.fail("environ-headers-upper-vs-lower" if folds_apart else "environ-view",
+                             f"EnvironHeaders({env!r}): {k!r} in e = {reads[0]}, get = {reads[1]!r}, getlist = {row!r}", case)
+    finally:
+        PROBE[:] = saved
+        FRESH[0] = fresh
+    chk.count("header names outside ASCII (reference model and laws, oracle only)", n)
+
+
 def heap_shape_checks(chk, ds):
     """the four primitives of the heap model (C08/ProofsCopy.v) on the implementation, by object identity of the rows:
     add appends to the row in place, __setitem__ / setlist / setdefault bind a newly built row (never the caller's list),
@@ -2630,6 +2682,7 @@ def run(chk: Check) -> None:
             chk.fail("multidict-model", f"constructor and update() disagree on {init[1]!r}: {_md_raw(c)!r} vs {_md_raw(u)!r}",
                      {"kind": "md", "init": init, "ops": []})
     request_headers_view(chk, rng, 60 if quick else 1500)
+    unicode_key_checks(chk, ds, rng, 400 if quick else 8000)
     heap_shape_checks(chk, ds)
     mutable_value_checks(chk, ds, rng, 40 if quick else 800)
     protocol_checks(chk, ds, rng, 150 if quick else 3000)
